@@ -566,6 +566,7 @@ fn cx_dest(cx: &mut Ctx) -> usize {
 }
 
 pub const C02_PROBES: &[&str] = &[
+    "handoff_via_into_request",
     "reply_flood",
     "buffer_over_64k",
     "conversion_probe_ok", "conversion_probe_interrupted",
@@ -574,12 +575,14 @@ pub const C02_PROBES: &[&str] = &[
     "noise_getvalues", "noise_unknown_type", "noise_foreign_begin", "noise_stale_params", "noise_huge_record", "noise_foreign_id",
 ];
 pub const C18H_PROBES: &[&str] = &[
+    "handoff_via_into_request",
     "buffer_over_64k",
     "conversion_probe_ok", "conversion_probe_interrupted",
     "noncompliant_order", "early_advance", "rejected_selection", "rejected_selection_mid_record", "reselect_current_mid_record", "held_back_header_seen",
     "stopped_mid_stream", "into_input_checked", "dest_len_zero", "compress_with_stream_data",
 ];
 pub const C05_PROBES: &[&str] = &[
+    "handoff_via_into_request",
     "conversion_probe_ok", "conversion_probe_interrupted",
     "chain_requests_2plus", "lookahead_at_handoff", "handoff_full_buffer", "fed_after_done", "converted_with_stream_selected", "converted_with_unconsumed_stream_data", "stopped_mid_stream", "held_back_header_seen",
     "exact_fill_read", "parse0_on_full_buffer",
@@ -622,8 +625,17 @@ pub fn pick_small_bufsize(cx: &mut Ctx, need: usize) -> usize {
 }
 
 /// Parses a preamble with the real request parser and hands off to a stream parser.
+fn role_has_streams(rp: &request::Parser<'_>) -> bool {
+    // peek at the parsed request through a clone
+    match rp.clone().into_request() {
+        Ok((req, _)) => !req.role.input_streams().is_empty(),
+        Err(_) => false,
+    }
+}
+
 pub fn handoff<'c>(
     cx: &mut Ctx,
+    cfg: &'c fastcgi_server::Config,
     mut rp: request::Parser<'c>,
     wire: &[u8],
     pos: &mut usize,
@@ -650,6 +662,31 @@ pub fn handoff<'c>(
                 Err(p) => vfail!("panic", "request::Parser::parse", "call after done: {p}"),
             }
         }
+    }
+    // (not for roles without input streams: their stream parser ignores everything, so announcing the leftover to it
+    // would also swallow a following request's records - the same no-multiplexing rule as elsewhere)
+    if role_has_streams(&rp) && cx.ch.chance(1, 4) {
+        // the other documented route: request plus leftover, then a stand-alone stream parser fed with the leftover
+        cx.probe("handoff_via_into_request");
+        let (req, left) = match guard(move || rp.into_request()) {
+            Ok(Ok(v)) => v,
+            Ok(Err(e)) => vfail!("c01_result", "", "into_request failed: {}", err_name(&e)),
+            Err(p) => vfail!("panic", "into_request", "{p}"),
+        };
+        let mut sp = match guard(|| stream::Parser::new(cfg, req)) { Ok(sp) => sp, Err(p) => vfail!("panic", "stream::Parser::new", "{p}") };
+        let eff = sp.input_buffer().len();
+        vcheck!(eff == effective(cfg.buffer_size), "c06_effective_bufsize", "stand-alone stream parser: effective buffer {eff} for configured {}", cfg.buffer_size);
+        vcheck!(left.len() <= eff, "c05_leftover", "leftover of {} bytes does not fit the {eff}-byte buffer it came from", left.len());
+        sp.input_buffer()[..left.len()].copy_from_slice(&left);
+        // hand the leftover over without interpreting it yet: the driver's first parse does that
+        let spm = &mut sp;
+        let n = left.len();
+        match guard(|| spm.parse(n, Some(&mut []))) {
+            Ok(Ok(st)) => vcheck!(st.stream == 0, "c02_delivery", "bytes delivered into an empty dest"),
+            Ok(Err(_)) => {} // an abort / bad header right at the front: the driver sees it again
+            Err(p) => vfail!("panic", "stream::Parser::parse", "{p}"),
+        }
+        return Ok((sp, d.output));
     }
     match guard(move || rp.into_stream_parser()) {
         Ok(Ok(sp)) => Ok((sp, d.output)),
@@ -701,7 +738,7 @@ pub fn stream_scenario(cx: &mut Ctx, c18: bool) -> VResult {
     let mut pos = 0;
     let rp = request::Parser::new(&cfg);
     // look-ahead at the hand-off is whatever the chunk style read beyond the preamble
-    let (sp, _) = handoff(cx, rp, &wire, &mut pos, wire.len(), style, &model::concat_replies(&pm.replies))?;
+    let (sp, _) = handoff(cx, &cfg, rp, &wire, &mut pos, wire.len(), style, &model::concat_replies(&pm.replies))?;
     if pos > info.end { cx.probe("lookahead_at_handoff"); }
     vcheck!(sp.request.request_id.get() == info.id, "c05_handoff_request", "wrong request after hand-off");
     let mut d = SDriver::new(sp, &wire, pos, wire.len(), &sm, info.role, style);
@@ -896,7 +933,7 @@ pub fn c05(cx: &mut Ctx) -> VResult {
         let read_all = n > 0 && (pos > req_end || cx.ch.chance(1, 2));
         let cap = if read_all || pos > req_end { wire.len() } else { req_end };
         let hcap = cap.max(pos);
-        let (sp, _) = handoff(cx, rp, &wire, &mut pos, hcap, style, &model::concat_replies(&pm.replies))?;
+        let (sp, _) = handoff(cx, &cfg, rp, &wire, &mut pos, hcap, style, &model::concat_replies(&pm.replies))?;
         if pos > info.end { cx.probe("lookahead_at_handoff"); }
         // environment equals that of a separate single-request run
         check_request(cx, &sp.request, info, "c05_chain_request")?;
@@ -1011,7 +1048,7 @@ pub fn c11_sync(cx: &mut Ctx) -> VResult {
     let mut pos = 0;
     let rp = request::Parser::new(&cfg);
     // feeding is capped at the end of the first request so that the stream parser never sees the next one
-    let (sp, _) = handoff(cx, rp, &wire, &mut pos, first_len, style, &model::concat_replies(&pm.replies))?;
+    let (sp, _) = handoff(cx, &cfg, rp, &wire, &mut pos, first_len, style, &model::concat_replies(&pm.replies))?;
     let mut d = SDriver::new(sp, &wire, pos, first_len, &sm, info.role, style);
     let n = d.streams.len();
     for s in 0..n {
